@@ -316,3 +316,46 @@ Proof.
   rewrite (prval_object ms obj w0 (mid ++ 42 :: 47 :: after) _ Ho H0); [|rewrite !app_length; lia].
   rewrite (take_until2_app 42 47 mid after Hno (or_introl Hedge)). reflexivity.
 Qed.
+
+(* ---------- as layouts of the token sequence (SLay) ---------- *)
+Lemma slay_block_rules ms obj w0 mid r t : RV (RObj ms) obj -> ws w0 ->
+  (forall u v, mid <> u ++ 42 :: 47 :: v) -> (forall u, mid <> u ++ [42]) -> trim_left mid = [] -> SLay r t ->
+  SLay (47 :: 42 :: w0 ++ obj ++ mid ++ 42 :: 47 :: r) (KAnn (mk_ann ms []) :: t).
+Proof.
+  intros Ho H0 Hno Hedge Hm Hr. apply (sl_block _ _ r); [|rewrite !app_length; cbn [length]; lia|exact Hr].
+  rewrite (block_rules_complete ms obj w0 mid r Ho H0 Hno Hedge), Hm. reflexivity.
+Qed.
+Lemma slay_block_rules_note ms obj w0 mid note r t : RV (RObj ms) obj -> ws w0 ->
+  (forall u v, mid <> u ++ 42 :: 47 :: v) -> (forall u, mid <> u ++ [42]) -> trim_left mid = 45 :: note -> SLay r t ->
+  SLay (47 :: 42 :: w0 ++ obj ++ mid ++ 42 :: 47 :: r) (KAnn (mk_ann ms (trim note)) :: t).
+Proof.
+  intros Ho H0 Hno Hedge Hm Hr. apply (sl_block _ _ r); [|rewrite !app_length; cbn [length]; lia|exact Hr].
+  rewrite (block_rules_complete ms obj w0 mid r Ho H0 Hno Hedge), Hm. reflexivity.
+Qed.
+Lemma slay_line_rules ms obj w0 w1 tail r t : RV (RObj ms) obj -> ws w0 -> ws w1 -> comment_tail tail ->
+  no_nl_b (w0 ++ obj ++ w1 ++ tail) -> line_end r -> SLay r t ->
+  SLay (47 :: 47 :: (w0 ++ obj ++ w1 ++ tail) ++ r) (KAnn (mk_ann ms []) :: t).
+Proof. intros Ho H0 H1 Ht Hnl Hr Hs. apply sl_ann_line; auto. apply ann_rules_complete; assumption. Qed.
+Lemma slay_line_rules_note ms obj w0 w1 note tail r t : RV (RObj ms) obj -> ws w0 -> ws w1 ->
+  Forall (fun c => c <> 35) note -> comment_tail tail ->
+  no_nl_b (w0 ++ obj ++ w1 ++ 45 :: note ++ tail) -> line_end r -> SLay r t ->
+  SLay (47 :: 47 :: (w0 ++ obj ++ w1 ++ 45 :: note ++ tail) ++ r) (KAnn (mk_ann ms (trim note)) :: t).
+Proof. intros Ho H0 H1 Hn Ht Hnl Hr Hs. apply sl_ann_line; auto. apply ann_rules_note_complete; assumption. Qed.
+
+Lemma ws_no_close w : ws w -> (forall u v, w <> u ++ 42 :: 47 :: v) /\ (forall u, w <> u ++ [42]).
+Proof.
+  intros Hw. split.
+  - intros u v E. subst w. apply Forall_app in Hw. destruct Hw as [_ Hw]. inversion Hw as [|? ? Hc _]. discriminate.
+  - intros u E. subst w. apply Forall_app in Hw. destruct Hw as [_ Hw]. inversion Hw as [|? ? Hc _]. discriminate.
+Qed.
+Theorem rules_line_or_block ms obj w0 w1 r1 r2 t : RV (RObj ms) obj -> ws w0 -> ws w1 ->
+  no_nl_b (w0 ++ obj ++ w1 ++ []) -> line_end r1 -> SLay r1 t -> SLay r2 t ->
+  exists s1 s2, SLay s1 (KAnn (mk_ann ms []) :: t) /\ SLay s2 (KAnn (mk_ann ms []) :: t) /\
+                s1 = 47 :: 47 :: (w0 ++ obj ++ w1 ++ []) ++ r1 /\ s2 = 47 :: 42 :: w0 ++ obj ++ w1 ++ 42 :: 47 :: r2.
+Proof.
+  intros Ho H0 H1 Hnl Hr1 Hs1 Hs2. eexists; eexists. split; [|split; [|split; reflexivity]].
+  - apply (slay_line_rules ms obj w0 w1 [] r1 t Ho H0 H1 (or_introl eq_refl) Hnl Hr1 Hs1).
+  - destruct (ws_no_close w1 H1) as [Hno Hedge].
+    assert (Hm : trim_left w1 = []) by (rewrite <- (app_nil_r w1); rewrite (trim_left_ws w1 [] H1); reflexivity).
+    exact (slay_block_rules ms obj w0 w1 r2 t Ho H0 Hno Hedge Hm Hs2).
+Qed.
